@@ -215,6 +215,9 @@ def replay(log, method):
                     sys_.integrate(**kw)
             except de.exception_types.FailedIntegration as x:
                 raised = x
+            except Exception as x:      # noqa -- anything else the call raises is an observation (the model predicts a completed call or a wrapped failure)
+                mism.append({"call": ncall, "what": "Raised", "model": fault is not None, "code": "not an integration failure: " + repr(x)[:160]})
+                return {"skipped": None, "mismatches": mism, "calls": ncall}
             except (Budget, traced.BudgetExceeded):
                 for mm in st["mism"]:
                     mm["call"] = ncall
